@@ -124,26 +124,17 @@ type vsKey struct {
 	t byte
 }
 
-type ownVote struct {
-	r   int
-	t   byte
-	val string // block id key, "" = nil
-}
-
 type localInst struct {
-	c      *localCfg
-	f      *csnet.Fixture
-	n      *csnet.Node
-	blocks [2]*types.Block
-	parts  [2]*types.PartSet
-	ids    [3]types.BlockID
-	total  int64
-	// tally[vs][validator] = set of value keys delivered (or own)
-	tally    map[vsKey]map[int]map[string]bool
+	c        *localCfg
+	f        *csnet.Fixture
+	n        *csnet.Node
+	blocks   [2]*types.Block
+	parts    [2]*types.PartSet
+	ids      [3]types.BlockID
+	total    int64
+	soup     *soup // everything delivered to the node plus its own votes
+	used     map[vsKey]map[int]map[string]bool
 	sentSeen int
-	own      []ownVote
-	lockVal  string
-	lockR    int
 	commits  int
 	height   uint64
 }
@@ -154,7 +145,7 @@ var (
 )
 
 func newLocal(c *localCfg, f *csnet.Fixture) *localInst {
-	li := &localInst{c: c, f: f, tally: map[vsKey]map[int]map[string]bool{}, lockR: -1, height: 1}
+	li := &localInst{c: c, f: f, soup: newSoup(c.powers), used: map[vsKey]map[int]map[string]bool{}, height: 1}
 	li.n = f.NewNode(c.self, 0)
 	st := f.GenesisStatus()
 	for b := 0; b < 2; b++ {
@@ -168,29 +159,24 @@ func newLocal(c *localCfg, f *csnet.Fixture) *localInst {
 	return li
 }
 
-func (li *localInst) power(val string, vs vsKey) int64 {
-	var s int64
-	for j, set := range li.tally[vs] {
-		if set[val] {
-			s += li.c.powers[j]
-		}
-	}
-	return s
-}
-
 func (li *localInst) record(vs vsKey, j int, val string) {
-	if li.tally[vs] == nil {
-		li.tally[vs] = map[int]map[string]bool{}
+	if li.used[vs] == nil {
+		li.used[vs] = map[int]map[string]bool{}
 	}
-	if li.tally[vs][j] == nil {
-		li.tally[vs][j] = map[string]bool{}
+	if li.used[vs][j] == nil {
+		li.used[vs][j] = map[string]bool{}
 	}
-	li.tally[vs][j][val] = true
+	li.used[vs][j][val] = true
+	if vs.t == types.VoteTypePrevote {
+		li.soup.pv[msg{j, vs.r, val}] = true
+	} else {
+		li.soup.pc[msg{j, vs.r, val}] = true
+	}
 }
 
 func idKey(id types.BlockID) string {
 	if id.IsZero() {
-		return ""
+		return nilV
 	}
 	return id.Key()
 }
@@ -211,7 +197,7 @@ func (li *localInst) nextUnused(vs vsKey) int {
 		if j == li.c.self {
 			continue
 		}
-		if len(li.tally[vs][j]) == 0 {
+		if len(li.used[vs][j]) == 0 {
 			return j
 		}
 	}
@@ -267,7 +253,7 @@ func (li *localInst) apply(in input) bool {
 		} else if in.kind == inEquiv {
 			j = -1
 			for x := range li.c.powers {
-				if x != li.c.self && len(li.tally[vs][x]) == 1 && !li.tally[vs][x][idKey(li.ids[in.blk])] {
+				if x != li.c.self && len(li.used[vs][x]) == 1 && !li.used[vs][x][idKey(li.ids[in.blk])] {
 					j = x
 					break
 				}
@@ -275,7 +261,7 @@ func (li *localInst) apply(in input) bool {
 			if j < 0 {
 				return false
 			}
-		} else if li.tally[vs][j][idKey(li.ids[in.blk])] {
+		} else if li.used[vs][j][idKey(li.ids[in.blk])] {
 			return false // exact duplicate: no-op
 		}
 		li.record(vs, j, idKey(li.ids[in.blk]))
@@ -287,7 +273,7 @@ func (li *localInst) apply(in input) bool {
 	return true
 }
 
-// observe checks the monitors on everything the node emitted since the last call.
+// observe checks the guards of the discipline model on everything the node emitted since the last call.
 func (li *localInst) observe() (string, string) {
 	n := li.n
 	self := li.c.self
@@ -300,113 +286,61 @@ func (li *localInst) observe() (string, string) {
 		if v.Height != li.height {
 			continue // votes of later heights: monitors cover the first height only
 		}
-		ov := ownVote{v.Round, v.Type, idKey(v.BlockID)}
-		// L0 monotone, L1 at most one vote per (round,type)
-		if len(li.own) > 0 {
-			last := li.own[len(li.own)-1]
-			if ov.r < last.r || (ov.r == last.r && ov.t < last.t) {
-				return "L0:vote-order-regression", fmt.Sprintf("own vote (r%d,t%d) signed after (r%d,t%d)", ov.r, ov.t, last.r, last.t)
-			}
-		}
-		for _, o := range li.own {
-			if o.r == ov.r && o.t == ov.t {
-				if o.val != ov.val {
-					return "L1:two-different-votes-in-one-round", fmt.Sprintf("own votes for %x and %x at (r%d,t%d)", o.val, ov.val, ov.r, ov.t)
-				}
-				return "L1:vote-signed-twice", fmt.Sprintf("own vote at (r%d,t%d) signed twice", ov.r, ov.t)
-			}
-		}
-		vs := vsKey{ov.r, ov.t}
-		switch ov.t {
+		val := idKey(v.BlockID)
+		switch v.Type {
 		case types.VoteTypePrevote:
-			// L3: no prevote against the own lock without a later proof-of-lock
-			if li.lockR >= 0 && ov.val != li.lockVal && ov.r > li.lockR {
-				released := false
-				for rr := li.lockR + 1; rr <= ov.r && !released; rr++ {
-					pv := vsKey{rr, types.VoteTypePrevote}
-					vals := map[string]bool{}
-					for _, set := range li.tally[pv] {
-						for val := range set {
-							vals[val] = true
-						}
-					}
-					for val := range vals {
-						if val != li.lockVal && 3*li.power(val, pv) > 2*li.total {
-							released = true
-						}
-					}
-				}
-				if !released {
-					return "L3:prevote-against-lock", fmt.Sprintf("prevote for %x at r%d while locked on %x since r%d and no later polka for another value was delivered", ov.val, ov.r, li.lockVal, li.lockR)
-				}
+			if k, w := li.soup.prevoteEnabled(self, v.Round, val); k != "" {
+				return k, w
 			}
+			li.soup.pv[msg{self, v.Round, val}] = true
 		case types.VoteTypePrecommit:
-			if ov.val != "" {
-				// L2: precommit for a block only on >2/3 prevotes for it in this round
-				pv := vsKey{ov.r, types.VoteTypePrevote}
-				if !(3*li.power(ov.val, pv) > 2*li.total) {
-					return "L2:precommit-without-polka", fmt.Sprintf("precommit for %x at r%d with only %d/%d prevote power delivered for it", ov.val, ov.r, li.power(ov.val, pv), li.total)
-				}
-				li.lockVal, li.lockR = ov.val, ov.r
+			if k, w := li.soup.precommitEnabled(self, v.Round, val); k != "" {
+				return k, w
 			}
+			li.soup.pc[msg{self, v.Round, val}] = true
 		}
-		li.record(vs, self, ov.val)
-		li.own = append(li.own, ov)
 	}
 	for ; li.commits < len(n.App.Commits); li.commits++ {
 		c := n.App.Commits[li.commits]
 		if c.Height != li.height {
 			continue
 		}
-		okc := false
-		var key string
-		for b := 0; b < 2; b++ {
-			if li.blocks[b].Hash() == c.Hash {
-				key = idKey(li.ids[b])
+		// the committed value: the block id (hash + parts header) whose hash is the committed block's
+		key := ""
+		for m := range li.soup.pc {
+			if m.v != nilV && strings.HasPrefix(m.v, c.Hash.String()) {
+				key = m.v
 			}
 		}
 		if key == "" {
-			// the node's own proposal block
-			for r := 0; r < 8 && !okc; r++ {
-				for _, set := range li.tally[vsKey{r, types.VoteTypePrecommit}] {
-					for val := range set {
-						if val != "" && strings.HasPrefix(val, string(c.Hash.Bytes())) {
-							key = val
-						}
-					}
-				}
-			}
+			return "L4:commit-without-precommit-quorum", fmt.Sprintf("block %x committed at height %d but no precommit for it was ever delivered", c.Hash.Bytes()[:6], c.Height)
 		}
-		for r := 0; r < 8 && key != ""; r++ {
-			if 3*li.power(key, vsKey{r, types.VoteTypePrecommit}) > 2*li.total {
-				okc = true
-			}
-		}
-		if !okc {
-			return "L4:commit-without-precommit-quorum", fmt.Sprintf("block %x committed at height %d without >2/3 delivered precommits for it in one round", c.Hash.Bytes()[:6], c.Height)
+		if k, w := li.soup.decideEnabled(key); k != "" {
+			return k, w
 		}
 	}
 	return "", ""
 }
 
 func (li *localInst) tallyKey() string {
-	var parts []string
-	for vs, m := range li.tally {
-		var vals []string
-		for j, set := range m {
-			var ks []string
-			for k := range set {
-				ks = append(ks, fmt.Sprintf("%x", k))
+	// canonical rendering of the soup; with symmetry reduction the other validators are anonymous
+	group := map[string][]string{}
+	add := func(t string, set map[msg]bool) {
+		for m := range set {
+			k := fmt.Sprintf("%s r%d", t, m.r)
+			who := fmt.Sprintf("%d", m.p)
+			if li.c.sym && m.p != li.c.self {
+				who = "x"
 			}
-			sort.Strings(ks)
-			if li.c.sym && j != li.c.self {
-				vals = append(vals, strings.Join(ks, "+"))
-			} else {
-				vals = append(vals, fmt.Sprintf("%d:%s", j, strings.Join(ks, "+")))
-			}
+			group[k] = append(group[k], fmt.Sprintf("%s:%.8x", who, m.v))
 		}
-		sort.Strings(vals)
-		parts = append(parts, fmt.Sprintf("r%dt%d[%s]", vs.r, vs.t, strings.Join(vals, ",")))
+	}
+	add("pv", li.soup.pv)
+	add("pc", li.soup.pc)
+	var parts []string
+	for k, vs := range group {
+		sort.Strings(vs)
+		parts = append(parts, k+"["+strings.Join(vs, ",")+"]")
 	}
 	sort.Strings(parts)
 	return strings.Join(parts, " ")
@@ -417,7 +351,7 @@ func (li *localInst) key() string {
 	if li.c.sym {
 		self = li.c.self
 	}
-	return li.n.DigestSym(self) + " ## " + li.tallyKey() + fmt.Sprintf(" lock=%x@%d", li.lockVal, li.lockR)
+	return li.n.DigestSym(self) + " ## " + li.tallyKey()
 }
 
 func runLocal(r *vk.Run, c *localCfg) vk.Result {
